@@ -444,6 +444,38 @@ def run_result(chk, spec):
 				f"result-typing/{spec['op']}/{label.split('#')[0]}/exp={fmt(exp)}/got={fmt(got)}",
 				f"{spec!r}: column {label} holds {short(vals, 200)} typed {fmt(got)}, rule says {fmt(exp)}")
 
+def run_exotic_aggregates(chk, spec):
+	"""a mean is not always a float, a sum not always an int: the built-in aggregates of window and aggregate over Decimal, Fraction, complex, bool and mixed
+	int / float columns are typed by the inference rule applied to the values they return"""
+	import warnings
+	from decimal import Decimal
+	from fractions import Fraction
+	data = {"Decimal": [Decimal("1.5"), Decimal("2.5"), Decimal("4"), Decimal("0.25")], "Fraction": [Fraction(1, 3), Fraction(2, 3), Fraction(5, 7), Fraction(1, 2)], "complex": [1 + 1j, 2 - 1j, 3j, 4 + 0j],
+		"bool": [True, False, True, True], "int-float": [1, 2.5, 3, 4.5], "int": [1, 2, 3, 4]}[spec["kind"]]
+	vals = list(data)
+	if spec["gap"]:
+		vals[1] = None
+	with warnings.catch_warnings():
+		warnings.simplefilter("ignore")
+		t = Table({"k": ["a", "b", "a", "b"], "v": vals})
+		o = call(lambda: getattr(t, spec["op"])(over="k", **{spec["fn"] + "_over": "v"}))
+	if not o.ok:
+		chk.skip("exotic-aggregate-raised")
+		return
+	vec = o.value.cols()[-1]
+	chk.observe(vec, f"exotic-aggregate/{spec['op']}")
+	out = list(vec._underlying)
+	exp = M.model_infer(out)
+	chk.judged("result-typing", ("exotic-aggregate", spec["op"], spec["fn"], spec["kind"], spec["gap"]))
+	if exp is None:
+		chk.skip("result-without-constrained-values")
+		return
+	got = sch(vec.schema())
+	if got != exp:
+		chk.fail("operation results are typed by the inference rule applied to their values", f"result-typing/{spec['op']}/{spec['fn']}-of-{spec['kind']}/exp={fmt(exp)}/got={fmt(got)}",
+			f"{spec!r}: column {vec.name!r} holds {short(out, 200)} typed {fmt(got)}, rule says {fmt(exp)}")
+
+
 def run_stale_result(chk, spec):
 	"""joins, aggregates and window results are typed from the VALUES they hold - not from what an operand's column once held (a None or a wider
 	value since overwritten) and not from the declared dtype of a column that has no rows left"""
@@ -578,7 +610,7 @@ def run_iterated_rows(chk, spec):
 				return
 
 
-RUNNERS = {"iterated_rows": run_iterated_rows, "unprintable": run_unprintable, "stale_result": run_stale_result, "widen_only": run_widen_only, "expr": run_expr, "reject": run_reject, "dynclass": run_dynclass, "seq": run_seq, "vector": run_vector, "step": run_step, "commute": run_commute, "allnone": run_allnone, "result": run_result}
+RUNNERS = {"exotic_aggregates": run_exotic_aggregates, "iterated_rows": run_iterated_rows, "unprintable": run_unprintable, "stale_result": run_stale_result, "widen_only": run_widen_only, "expr": run_expr, "reject": run_reject, "dynclass": run_dynclass, "seq": run_seq, "vector": run_vector, "step": run_step, "commute": run_commute, "allnone": run_allnone, "result": run_result}
 
 
 # ------------------------------------------------------------------ driver
@@ -637,6 +669,11 @@ def run(chk):
 		chk.case("expr", {"name": name}, "result-typing-expr")
 	for names in (["huge", "str"], ["huge", "float"], ["huge", "int"], ["norepr", "int"], ["norepr", "str", "huge"], ["str", "huge", "none"], ["huge", "date"], ["norepr", "norepr", "int"], ["huge", "str", "float"]):
 		chk.case("unprintable", {"names": names}, "seq-unprintable")
+	for op in ("window", "aggregate"):
+		for fn in ("mean", "sum", "min", "max", "stdev", "count"):
+			for kind in ("Decimal", "Fraction", "complex", "bool", "int-float", "int"):
+				for gap in (False, True):
+					chk.case("exotic_aggregates", {"op": op, "fn": fn, "kind": kind, "gap": gap}, "result-typing-exotic-aggregates")
 	for op in ROW_TYPING_OPS:
 		for rows in ("none-late", "none-early", "widening", "no-none-then-all-none"):
 			for order in ("forward", "every-row-twice", "moved-by-hand"):
